@@ -284,7 +284,8 @@ Proof. destruct e; cbn; auto. Qed.
 
 (* ================= the theorem ================= *)
 Definition hit_collect (s:fstate) : Prop := bad_read s.
-Definition parse_status (f:idx) : N := match fl f with Some ForeignDetect => 1 | _ => 2 end%N.
+Definition parse_status (f:idx) : N :=
+  match fl f with Some ForeignDetect | Some ForeignAmbiguous | Some ForeignJson | Some PbDecode => 1 | _ => 2 end%N.
 
 Theorem fault_fails_clean s choice : reachable s -> ftasks s = [] ->
   let o := foutcome R fl root choice s in
@@ -310,9 +311,9 @@ Proof.
       { unfold parse_fault in Hpf. apply orb_true_iff in Hpf. destruct Hpf as [Hff|Hb]; [|exact Hb].
         assert (In f (filter (foreign_fault fl) l)) by (apply filter_In; auto). rewrite Hfil in H. destruct H. }
       destruct (find (body_fault fl) l) as [f'|] eqn:Hfind.
-      + apply find_some in Hfind. destruct Hfind as [Hin' Hb']. exists (ESyntax f'), f'.
+      + apply find_some in Hfind. destruct Hfind as [Hin' Hb']. exists (body_err fl f'), f'.
         split; [reflexivity|]. split; [exact Hin'|]. split; [unfold parse_fault; rewrite Hb'; apply orb_true_r|].
-        split; [cbn; apply N.eqb_refl|]. unfold parse_status, body_fault in *. destruct (fl f') as [[]|]; try discriminate. reflexivity.
+        unfold parse_status, body_fault, body_err in *. destruct (fl f') as [[]|]; try discriminate; cbn; rewrite N.eqb_refl; auto.
       + pose proof (find_none _ _ Hfind f Hin). congruence.
     - assert (Hsel : exists f', In f' (x :: xs) /\
                  match nth_error (x :: xs) (choice mod length (x :: xs)) with Some f0 => Error (foreign_err fl f0) | None => Error (foreign_err fl x) end = Error (foreign_err fl f')).
@@ -326,8 +327,8 @@ Proof.
   assert (Hps_err : forall l e, parse_specs fl choice l = Error e -> exists f, names e f = true /\ fl f <> None).
   { intros l e. unfold parse_specs. destruct (filter (foreign_fault fl) l) as [|x xs] eqn:Hfil.
     - destruct (find (body_fault fl) l) as [f'|] eqn:Hfind; [|discriminate]. intros [= <-].
-      apply find_some in Hfind. destruct Hfind as [_ Hb]. exists f'. split; [cbn; apply N.eqb_refl|].
-      unfold body_fault in Hb. destruct (fl f'); [discriminate|discriminate].
+      apply find_some in Hfind. destruct Hfind as [_ Hb]. exists f'.
+      unfold body_fault, body_err in *. destruct (fl f') as [[]|]; try discriminate; cbn; rewrite N.eqb_refl; split; auto; discriminate.
     - assert (Hall : forall f0, In f0 (x :: xs) -> exists f, names (foreign_err fl f0) f = true /\ fl f <> None).
       { intros f0 Hin0. rewrite <- Hfil in Hin0. apply filter_In in Hin0. destruct Hin0 as [_ Hff]. exists f0.
         unfold foreign_err, foreign_fault in *. destruct (fl f0) as [[]|]; try discriminate; cbn; rewrite N.eqb_refl; split; auto; discriminate. }
